@@ -461,8 +461,35 @@ func runProxyCase(k *toks, o *out) {
 			o.s(fmt.Sprintf("memory-balloon:%dMiB", (ms1.HeapSys-ms0.HeapSys)>>20))
 		}
 	}()
+	// ---- the optional tail of the case: "waits" n {event index, ms}: real time the driver lets pass before that event
+	waits := map[int]int{}
+	{
+		p := k.pos
+		width := map[string]int{"udp": 4, "accept": 3, "data": 2, "close": 1, "badd": 2, "brem": 2}
+		ok := true
+		for e := 0; e < nev && ok; e++ {
+			if p >= len(k.t) {
+				ok = false
+				break
+			}
+			w, has := width[string(k.t[p])]
+			ok = has
+			p += 1 + w
+		}
+		if ok && p+1 < len(k.t) && string(k.t[p]) == "waits" {
+			n, _ := strconv.Atoi(string(k.t[p+1]))
+			for j := 0; j < n && p+3+2*j < len(k.t); j++ {
+				idx, _ := strconv.Atoi(string(k.t[p+2+2*j]))
+				msv, _ := strconv.Atoi(string(k.t[p+3+2*j]))
+				waits[idx] += msv
+			}
+		}
+	}
 	// ---- events
 	for e := 0; e < nev && !k.bad; e++ {
+		if w := waits[e]; w > 0 {
+			time.Sleep(time.Duration(w) * time.Millisecond)
+		}
 		kind := k.str()
 		switch kind {
 		case "udp":
